@@ -120,6 +120,26 @@ needs = {
 "C17-6": ("ECPoint.Add takes a doubling fast path on equal x alone", "operands that share x and differ in y: P + (-P)"),
 "C18-5": ("DeriveChildKey builds the parent point without the curve check", "invalid parents whose sum with IL*G is on the curve: the identity written (0,0), (x, y-p), (x, -y)"),
 "C18-6": ("DeriveChildKeyFromHierarchy shadows err inside its loop", "a refused level (hardened index, depth 255) anywhere in a multi-level path: the path is silently truncated"),
+"C01-7": ("signing round 7 rewritten with crypto.ECPoint helpers: -m*G is the point at infinity for m = 0, which they reject", "digest 0: every signer panics in round 7"),
+"C01-8": ("PrepareForSigning bigWs loop: Lagrange difference operands swapped: bigWs[j] multiplied by (-1)^(|S|-1)", "an even number of signers: every signer aborts in round 3"),
+"C03-7": ("ShareID taken from the party's own VSS share, which Create now labels with the reduced id", "ECDSA keygen at a party whose key is >= the group order: ShareID differs from Ks[i]"),
+"C03-8": ("keygen WaitingFor filters the peer context's party list in place", "the application polls WaitingFor() while some but not all peers are complete: BigXj evaluated at the wrong keys"),
+"C04-7": ("EdDSA resharing round 4 no longer sums the sub-shares; round 5 re-reads the stored DGRound3Message1", "an old member sends a second, different DGRound3Message1 after the new member verified and ACKed the first"),
+"C04-8": ("ECDSA resharing retiring member sends on the end channel before erasing its share", "the retiring member's end channel blocks (never read / unbuffered): the share is never erased"),
+"C05-7": ("ECPoint.Equals compares Y with itself (fourth independent occurrence)", "a participant sends the negated Feldman share q - s"),
+"C05-8": ("ECDSA resharing round 4: the UnFlattenECPoints error site names newPs[j] instead of oldPs[j]", "an old member commits in round 1 to a list containing an off-curve point and opens exactly that list in round 3"),
+"C06-7": ("BaseUpdate returns without unlocking when a message is ignored without error", "a well-formed message of a registered type that belongs to another protocol: the next call on the party blocks forever"),
+"C06-8": ("UnmarshalDLNProof merges the two per-part length checks into one total", "both length prefixes changed consistently (k and 256-k): nil dereference in Verify, inside library goroutines"),
+"C07-7": ("EdDSA resharing CanProceed scans only min(len) entries of oldOK", "old committee larger than the new one: a new member enters round 4 without the high-indexed old members' messages"),
+"C07-8": ("ECDSA resharing ValidateMessage checks DGRound3Message2's sender index against the new committee's size", "old committee larger than the new one"),
+"C08-7": ("EdDSA signing round 1 recomputes the ok flags on every Update", "a flag-flipped duplicate of an already accepted round-1 message: the sender re-appears in WaitingFor"),
+"C08-8": ("EdDSA resharing ValidateMessage bounds DGRound3Message2 by the new committee's size", "old committee larger than the new one"),
+"C12-7": ("DLN Verify memoises accepted challenges (the responses are not part of the key)", "the untampered transcript was accepted earlier in the same process: any replaced response is then accepted"),
+"C12-8": ("RejectionSample computes q mod hash instead of hash mod q", "edwards25519 (q about 2^252): the challenge is the constant q for 15/16 of transcripts"),
+"C19-7": ("all safe-prime workers share one candidate buffer", "concurrency >= 2 and a nanosecond interleaving: second-highest bit clear in 1-4 of 10,000 primes; the race detector flags it at once"),
+"C19-8": ("the bit-length re-check after stepping the candidate is dropped", "small sizes (7-20 bits): a pair one bit too long"),
+"C20-7": ("MarshalJSON omits the curve name for points on the process-global default curve", "key data written under one global default curve and read under another"),
+"C20-8": ("ECDSA BuildLocalSaveDataSubset walks saved parties and signers side by side with bytes.Compare", "party keys of different byte lengths (byte order differs from numeric order)"),
 }
 conf = {}
 for f in glob.glob('/tmp/seed-confirm/*.result'):
